@@ -1,5 +1,5 @@
 (* C05 — property theorems only. *)
-From C05 Require Import Model Spec Corr Proofs ProofsRound ProofsBits ProofsCmp ProofsDiv ProofsGcd ProofsArith ProofsAll.
+From C05 Require Import Model Spec Corr Proofs ProofsRound ProofsBits ProofsCmp ProofsDiv ProofsGcd ProofsArith ProofsExt ProofsAll.
 Open Scope Z_scope.
 
 (* (1) Inside the guard the code model returns the mathematically exact result in canonical form and
@@ -17,7 +17,9 @@ Open Scope Z_scope.
    path): the fold of Z.gcd from 0 / Z.lcm from 1 over the operands, as a fixnum when it fits;
    < <= > >= and = on chains of any length over fixnums, bignums and ratios in canonical form that do not
    pair a bignum beyond 64 bits with a ratio in adjacent positions;
-   logand logior logxor (any number of integer operands, 0 included) and lognot.
+   logand logior logxor (any number of integer operands, 0 included) and lognot;
+   max and min of one or more fixnums, bignums and ratios in canonical form without a bignum next to a ratio:
+   the operand holding the largest / smallest exact value, whatever the distance between the operands.
    FULL STATEMENT (false of the faithful model, see (4)):  forall o args, denotes args <> None ->
      s_out o args = Some (m_op o args).
    WHAT THE GUARD STILL EXCLUDES, precisely: (a) results that slip does not demote: a + - * accumulator that
@@ -65,7 +67,7 @@ Theorem C05_trichotomy : forall a b, canonical a = true -> canonical b = true ->
 Proof. exact trichotomy. Qed.
 Print Assumptions C05_trichotomy.
 
-(* (4) outside the guard the faithful model violates the specification: 12 kernel-checked witnesses,
+(* (4) outside the guard the faithful model violates the specification: 13 kernel-checked witnesses,
    one per remaining guard clause; each is a known finding replayed on the implementation *)
 Theorem C05_outside_guard_refuted :
   forallb (fun w => refuted (fst w) (snd w)) refutation_witnesses = true /\
@@ -150,3 +152,20 @@ Theorem C05_arith_value_exact : forall o args,
     lowest_res (o_res (m_op o args)) = true.
 Proof. exact arith_value_exact. Qed.
 Print Assumptions C05_arith_value_exact.
+
+(* (11) max and min: inside the guard (1) they return the largest / smallest exact value; for ANY operands the
+   result is one of the operand objects itself (never a promoted copy), unless a float took part; and the
+   guard contains the pairs of fixnums more than 2^63 apart *)
+Theorem C05_max_min_is_an_operand : forall mx args v,
+  o_res (m_op (OExt mx) args) = RVal v -> v = VInexact \/ In v args.
+Proof. exact ext_operand. Qed.
+Print Assumptions C05_max_min_is_an_operand.
+Theorem C05_max_min_guard_nonvacuous :
+  in_domain (OExt true) [VFix (-9223372036854775808); VFix 1] = true /\
+  in_domain (OExt false) [VFix 5000000000000000000; VFix 6000000000000000000; VFix (-5000000000000000000)] = true /\
+  in_domain (OExt true) [VRat (-1) 2; VFix 0; VRat 1 3] = true /\ in_domain (OExt false) [VBig B; VFix 1; VBig (- B)] = true /\
+  in_domain (OExt true) [VBig B; VRat 1 2] = false /\
+  o_res (m_op (OExt true) [VFix (-9223372036854775808); VFix 1]) = RVal (VFix 1) /\
+  o_res (m_op (OExt false) [VFix (-4611686018427387904); VFix 4611686018427387904]) = RVal (VFix (-4611686018427387904)).
+Proof. exact ext_examples. Qed.
+Print Assumptions C05_max_min_guard_nonvacuous.
